@@ -65,10 +65,16 @@ async fn run(mut sim: Sim, seed: u64, lossy: bool) -> Result<Value, String> {
         Some(adv::server_config(vec![e_cert.clone()], adv::ed_key_der(&e_key))),
     )
     .map_err(|e| e.to_string())?;
+    let (ep3, addr3) = adv::endpoint(
+        &sim.run.fabric,
+        Some(adv::server_config(vec![e_cert.clone(), x_cert.clone()], adv::ed_key_der(&e_key))),
+    )
+    .map_err(|e| e.to_string())?;
+    sim.run.obs(-1, "obs.addr", json!({"addr": addr3.to_string(), "who": e_who, "kind": "own-cert-then-X"}));
     sim.run.obs(-1, "obs.addr", json!({"addr": addr1.to_string(), "who": e_who, "kind": "replays-X"}));
     sim.run.obs(-1, "obs.addr", json!({"addr": addr2.to_string(), "who": e_who, "kind": "own-cert"}));
     let run_ = sim.run.clone();
-    for ep in [ep1.clone(), ep2.clone()] {
+    for ep in [ep1.clone(), ep2.clone(), ep3.clone()] {
         let run_ = run_.clone();
         tokio::spawn(async move {
             while let Some(incoming) = ep.accept().await {
@@ -86,10 +92,10 @@ async fn run(mut sim: Sim, seed: u64, lossy: bool) -> Result<Value, String> {
     }
 
     // the dialer's own address is a target too (self-dial, pinned to itself or not)
-    let targets = [sim.addr(x), sim.addr(y), addr1, addr2, sim.addr(d)];
+    let targets = [sim.addr(x), sim.addr(y), addr1, addr2, sim.addr(d), addr3];
     let pins = [Some(sim.peer_id(x)), None, Some(sim.peer_id(y)), Some(sim::peer_id_of(&e_key)), Some(sim.peer_id(d))];
     let mut cases: Vec<(usize, usize)> = Vec::new();
-    for t in 0..5 {
+    for t in 0..6 {
         for p in 0..5 {
             if (t == 4) != (p == 4) && !(t == 4 && p == 1) {
                 continue; // self address only with the self pin or no pin; self pin only there
@@ -164,6 +170,7 @@ async fn run(mut sim: Sim, seed: u64, lossy: bool) -> Result<Value, String> {
     sim.obs_all_peers();
     ep1.close(0u32.into(), b"");
     ep2.close(0u32.into(), b"");
+    ep3.close(0u32.into(), b"");
     let _ = seed;
     finish(&mut sim, o.idle_ms).await;
     Ok(json!({"dials": cases.len(), "ok": n_ok}))
